@@ -1,6 +1,7 @@
 package c01
 
 import (
+	"sync"
 	"bytes"
 	"context"
 	"encoding/json"
@@ -160,6 +161,50 @@ func runCase(t *testing.T, p *pool, c *GCase) {
 			}
 			c.Evals++
 		}
+	}
+	// ... and on every evaluation however many other evaluations are under way in the same process: the same round is
+	// computed on instance 0 while two instances with ANOTHER config digest (another key source for every
+	// pseudo-random ordering) compute theirs, several times over
+	if firstErr == nil && len(nodes) >= 1 && len(aobs) > 0 {
+		others := p.get(c.N, c.F, c.Digest+7)
+		copyIn := func() []ocr2plustypes.AttributedObservation {
+			in := make([]ocr2plustypes.AttributedObservation, len(aobs))
+			for i := range aobs {
+				in[i] = ocr2plustypes.AttributedObservation{Observation: append([]byte(nil), aobs[i].Observation...), Observer: aobs[i].Observer}
+			}
+			return in
+		}
+		var wg sync.WaitGroup
+		var mu sync.Mutex
+		for g := 0; g < 3; g++ {
+			wg.Add(1)
+			go func(g int) {
+				defer wg.Done()
+				for k := 0; k < 4; k++ {
+					if g == 0 {
+						out, err := nodes[0].Plugin.Outcome(context.Background(), outctx, nil, copyIn())
+						mu.Lock()
+						c.Evals++
+						if err != nil || !bytes.Equal(out, first) {
+							c.Det = false
+							if err == nil {
+								seen := false
+								for _, a := range c.AltOuts {
+									seen = seen || a == string(out)
+								}
+								if !seen {
+									c.AltOuts = append(c.AltOuts, string(out))
+								}
+							}
+						}
+						mu.Unlock()
+					} else {
+						_, _ = others[g%len(others)].Plugin.Outcome(context.Background(), outctx, nil, copyIn())
+					}
+				}
+			}(g)
+		}
+		wg.Wait()
 	}
 	c.OutErr = firstErr != nil
 	c.OutJSON = string(first)
